@@ -6,11 +6,22 @@ reached the wire.
   * OSC device: a UDP socket bound on 127.0.0.1 (ephemeral port) receives the datagrams;
   * MIDI-file device: the file is written, then read back with mido.
 
-stdin  {"midi": [case...], "osc": [case...], "mpe": [sequence...], "file": [case...], "timeline": [case...]}
+stdin  {"midi": [case...], "osc": [case...], "osch": [history...], "mpe": [sequence...], "file": [case...], "timeline": [case...]}
 stdout {"midi": [...], ...} one result per case; every exception is caught per call and reported by class name.
 
 Argument encoding: JSON int / float / str as is; ["np", "int64", 5] -> numpy.int64(5); ["pat", x] -> a pattern
-yielding x (for OSC send parameters)."""
+yielding x (for OSC send parameters).
+
+File cases: {"ops": [op...], "ndev": k}; op = ["tpb", N(, dev)] (set dev.midifile.ticks_per_beat before anything else),
+["tick", n(, dev)] (n tick() calls), [request, [args](, dev)] with request in note_on / note_off / control /
+program_change / pitch_bend; `dev` selects one of the k devices of the case (all alive at the same time).  The result
+carries, per device, every non-meta message of the saved file with its DELTA TIME, the file's ticks_per_beat, and
+which requests the device class implements itself ("supports": a request it merely inherits from OutputDevice as a
+no-op, or does not have, writes nothing).
+OSC histories ("osch"): {"msgs": [{"op", "args", "dev"}...], "ndev": k}: every message of one history goes out
+through one of k OSCOutputDevice instances (created once per history) to one socket; one result per message.
+Timeline cases on the file device run a recording subclass that logs every tick() and request the Timeline makes
+(in call order) before delegating to the real method; the log comes back as file-case ops."""
 import sys, json, os, socket, tempfile
 import mido
 
@@ -170,31 +181,131 @@ def read_file(path):
     return msgs
 
 
+FILE_REQS = ["note_on", "note_off", "control", "program_change", "pitch_bend", "aftertouch"]
+
+
+def file_supports():
+    from isobar.io.output import OutputDevice
+    out = {}
+    for name in FILE_REQS:
+        f = getattr(MidiFileOutputDevice, name, None)
+        out[name] = f is not None and f is not getattr(OutputDevice, name, None)
+    return out
+
+
+def invoke_file(dev, op, args):
+    if not hasattr(dev, op):
+        return "AttributeError"
+    return invoke(dev, op, args, False)[0]
+
+
 def do_file(cases, tmpdir):
     out = []
+    sup = file_supports()
     for i, c in enumerate(cases):
-        path = os.path.join(tmpdir, "c19-%d.mid" % i)
-        dev = MidiFileOutputDevice(path)
+        ndev = c.get("ndev", 1)
+        paths = [os.path.join(tmpdir, "c19-%d-%d.mid" % (i, k)) for k in range(ndev)]
+        devs = [MidiFileOutputDevice(p) for p in paths]
         calls = []
         for op in c["ops"]:
+            dev = devs[op[2] if len(op) > 2 else 0]
             if op[0] == "tick":
                 for _ in range(op[1]):
                     dev.tick()
                 calls.append(None)
+            elif op[0] == "tpb":
+                dev.midifile.ticks_per_beat = op[1]
+                calls.append(None)
             else:
-                exc, _ = invoke(dev, op[0], op[1], False)
-                calls.append(exc)
-        exc, _ = call(dev.write)
-        msgs = None
-        if exc is None:
-            e2, msgs = call(read_file, path)
-            exc = e2
-        out.append({"calls": calls, "write": exc, "msgs": msgs})
-        try:
-            os.unlink(path)
-        except OSError:
-            pass
+                calls.append(invoke_file(dev, op[0], op[1]))
+        files = []
+        for dev, path in zip(devs, paths):
+            exc, _ = call(dev.write)
+            msgs, tpb = None, None
+            if exc is None:
+                e2, msgs = call(read_file, path)
+                exc = e2
+                if e2 is None:
+                    tpb = mido.MidiFile(path).ticks_per_beat
+            files.append({"write": exc, "msgs": msgs, "tpb": tpb, "device_tpb": call(lambda: dev.ticks_per_beat)[1]})
+            try:
+                os.unlink(path)
+            except OSError:
+                pass
+        out.append({"calls": calls, "write": files[0]["write"], "msgs": files[0]["msgs"], "files": files, "supports": sup})
     return out
+
+
+# ---- OSC histories: several messages through the same device(s), one result per message ---------------
+def do_osch(hists):
+    out = []
+    for h in hists:
+        sock = socket.socket(socket.AF_INET, socket.SOCK_DGRAM)
+        sock.bind(("127.0.0.1", 0))
+        devs = [OSCOutputDevice("127.0.0.1", sock.getsockname()[1]) for _ in range(h.get("ndev", 1))]
+        res = []
+        for c in h["msgs"]:
+            dev = devs[c.get("dev", 0)]
+            op = c["op"]
+            if op == "send":
+                params = c["args"][1]
+                a = [c["args"][0]] if params == "absent" else [c["args"][0], None if params is None else [arg(p) for p in params]]
+                exc, _ = call(dev.send, *a)
+            else:
+                exc, _ = invoke(dev, op, c["args"], False)
+            dgrams = []
+            sock.settimeout(2.0 if exc is None else 0.05)
+            try:
+                dgrams.append(sock.recv(65536).hex())
+                sock.settimeout(0.0)
+                while True:
+                    dgrams.append(sock.recv(65536).hex())
+            except (socket.timeout, BlockingIOError, OSError):
+                pass
+            res.append({"raise": exc, "dgrams": dgrams})
+        sock.close()
+        out.append(res)
+    return out
+
+
+def jsonable(x):
+    """a request argument as the Timeline passed it -> the JSON argument spec of this driver"""
+    if isinstance(x, bool) or x is None:
+        return ["opaque", repr(x)]
+    if isinstance(x, (int, float)) and type(x) in (int, float):
+        return x
+    mod = type(x).__module__
+    if mod == "numpy" and hasattr(x, "item") and getattr(x, "shape", None) == ():
+        return ["np", type(x).__name__, x.item()]
+    return ["opaque", repr(x)]
+
+
+def recording_file_device(path, log):
+    """MidiFileOutputDevice that logs tick() and every request (call order) and then does the real thing"""
+    def wrap(name):
+        base = getattr(MidiFileOutputDevice, name)
+
+        def f(self, *a, **k):
+            names = MIDI_KW[name]
+            args = list(a) + [k[n] for n in names[len(a):] if n in k]
+            entry = [name, [jsonable(x) for x in args]]
+            if len(args) != len(names):
+                entry = ["opaque-call", name]
+            log.append(entry)
+            return base(self, *a, **k)
+        return f
+
+    def tick(self):
+        if log and log[-1][0] == "tick":
+            log[-1][1] += 1
+        else:
+            log.append(["tick", 1])
+        return MidiFileOutputDevice.tick(self)
+    body = {"tick": tick}
+    for name in FILE_REQS:
+        if hasattr(MidiFileOutputDevice, name):
+            body[name] = wrap(name)
+    return type("RecordingMidiFileOutputDevice", (MidiFileOutputDevice,), body)(path)
 
 
 # ---- through Timeline / Track.perform_event ----------------------------------------------------------
@@ -208,7 +319,10 @@ def do_timeline(cases, tmpdir):
             dev = MidiOutputDevice("verif-fake-port")
         elif kind == "file":
             path = os.path.join(tmpdir, "c19-tl-%d.mid" % i)
-            dev = MidiFileOutputDevice(path)
+            log = []
+            dev = recording_file_device(path, log)
+            if c.get("tpb"):
+                dev.midifile.ticks_per_beat = c["tpb"]
         else:
             sock = socket.socket(socket.AF_INET, socket.SOCK_DGRAM)
             sock.bind(("127.0.0.1", 0))
@@ -230,6 +344,9 @@ def do_timeline(cases, tmpdir):
             e2, _ = call(dev.write)
             r["write"] = e2
             r["msgs"] = call(read_file, path)[1] if e2 is None else None
+            r["log"] = log
+            r["tpb"] = call(lambda: mido.MidiFile(path).ticks_per_beat)[1] if e2 is None else None
+            r["supports"] = file_supports()
             try:
                 os.unlink(path)
             except OSError:
@@ -260,6 +377,8 @@ def main():
             out["midi"] = do_midi(req["midi"])
         if "osc" in req:
             out["osc"] = do_osc(req["osc"])
+        if "osch" in req:
+            out["osch"] = do_osch(req["osch"])
         if "mpe" in req:
             out["mpe"] = do_mpe(req["mpe"])
         if "file" in req:
